@@ -52,7 +52,7 @@ use std::sync::{Arc, Mutex};
 
 /// The configuration menu.  `sorted` registers every table with a declared
 /// sort order (`MemTable::with_sort_order`) over rows that really are sorted.
-pub const ALL_CONFIGS: [&str; 4] = ["default", "tp3", "smj_bs2", "sorted"];
+pub const ALL_CONFIGS: [&str; 5] = ["default", "tp3", "smj_bs2", "sorted", "parquet"];
 
 pub fn config_description(c: &str) -> &'static str {
     match c {
@@ -60,6 +60,7 @@ pub fn config_description(c: &str) -> &'static str {
         "tp3" => "target_partitions=3, every table laid out round-robin over 2 partitions in 1-row batches",
         "smj_bs2" => "prefer_hash_join=false (sort-merge joins), batch_size=2, target_partitions=2, tables 1 partition cut in 2-row batches",
         "sorted" => "target_partitions=2, tables sorted by (a, next column) ASC NULLS LAST, laid out round-robin over 2 partitions, sort order declared with MemTable::with_sort_order",
+        "parquet" => "target_partitions=2, every table stored as 2 Parquet files (row i in file i mod 2) in an in-memory object store, rows of each file sorted by (a, next column) ASC NULLS LAST, file sort order declared, Parquet statistics collected",
         _ => "?",
     }
 }
@@ -146,6 +147,43 @@ pub fn context_for(dbv: &Database, config: &str) -> Result<SessionContext, Strin
                 let order = key.iter().map(|k| col(sorted.cols[*k].0.as_str()).sort(true, false)).collect::<Vec<_>>();
                 let mt = MemTable::try_new(engine::arrow_schema(&sorted, TextEncoding::View), parts).map_err(|e| format!("MemTable::try_new: {e}"))?.with_sort_order(vec![order]);
                 sctx.register_table(t.name.as_str(), Arc::new(mt)).map_err(|e| format!("register_table: {e}"))?;
+            }
+            Ok(sctx)
+        }
+        "parquet" => {
+            use object_store::ObjectStoreExt;
+            let sctx = SessionContext::new_with_config(default_config().with_target_partitions(2));
+            let store = Arc::new(object_store::memory::InMemory::new());
+            let url = url::Url::parse("walkermem://db").unwrap();
+            sctx.register_object_store(&url, store.clone());
+            for t in &dbv.tables {
+                let key = sorted_key(t);
+                let schema = engine::arrow_schema(t, TextEncoding::View);
+                for f in 0..2usize {
+                    let mut rows: Vec<&Row> = t.rows.iter().enumerate().filter(|(i, _)| i % 2 == f).map(|(_, r)| r).collect();
+                    if rows.is_empty() {
+                        continue;
+                    }
+                    rows.sort_by(|x, y| {
+                        for k in &key {
+                            match cmp_sort(&x[*k], &y[*k], false, false) {
+                                Some(Ordering::Equal) | None => {}
+                                Some(o) => return o,
+                            }
+                        }
+                        Ordering::Equal
+                    });
+                    let batch = engine::rows_to_batch(t, &rows, TextEncoding::View);
+                    let mut buf = vec![];
+                    let mut w = parquet::arrow::ArrowWriter::try_new(&mut buf, batch.schema(), None).map_err(|e| format!("parquet writer: {e}"))?;
+                    w.write(&batch).map_err(|e| format!("parquet write: {e}"))?;
+                    w.close().map_err(|e| format!("parquet close: {e}"))?;
+                    let path = object_store::path::Path::from(format!("{}/part-{f}.parquet", t.name));
+                    block_on(store.put(&path, object_store::PutPayload::from(buf))).map_err(|e| format!("put {path}: {e}"))?;
+                }
+                let order = key.iter().map(|k| col(t.cols[*k].0.as_str()).sort(true, false)).collect::<Vec<_>>();
+                let opts = datafusion::prelude::ParquetReadOptions::default().schema(schema.as_ref()).file_extension(".parquet").file_sort_order(vec![order]);
+                block_on(sctx.register_parquet(t.name.as_str(), format!("walkermem://db/{}/", t.name), opts)).map_err(|e| format!("register_parquet({}): {e}", t.name))?;
             }
             Ok(sctx)
         }
@@ -269,7 +307,7 @@ fn standalone_obstacle(nodes: &[NodeRef], i: usize) -> Option<Skip> {
 /// sub-plan with fresh execution state, wrapped (when the sub-plan evaluates a
 /// `ScalarSubqueryExpr`) in copies of the enclosing pass-through
 /// `ScalarSubqueryExec` nodes that compute the scalar results.
-pub fn standalone_plan(nodes: &[NodeRef], i: usize) -> Result<Arc<dyn ExecutionPlan>, Skip> {
+pub fn standalone_plan(nodes: &[NodeRef], i: usize, freshly_planned: bool) -> Result<Arc<dyn ExecutionPlan>, Skip> {
     if let Some(s) = standalone_obstacle(nodes, i) {
         return Err(s);
     }
@@ -289,7 +327,27 @@ pub fn standalone_plan(nodes: &[NodeRef], i: usize) -> Result<Arc<dyn ExecutionP
             cur = p;
         }
     }
+    if freshly_planned {
+        // a plan nobody has executed yet needs no reset (and resetting would cut the link between
+        // the producers and the consumers of its dynamic filters)
+        return Ok(plan);
+    }
     reset_plan_states(plan).map_err(|e| Skip::CannotBuild(format!("reset_plan_states: {e}")))
+}
+
+/// Plans that hold dynamic filters cannot be re-executed through `reset_plan_states` (documented
+/// there): a reset producer gets a new filter object while the consumer keeps the old one, with
+/// whatever bound earlier runs left in it.  For such plans every execution uses a plan planned
+/// afresh from the SQL text (planning is deterministic; the shape is verified).
+pub fn plan_holds_dynamic_filters(nodes: &[NodeRef]) -> bool {
+    nodes.iter().any(|n| node_consumes_dynamic_filter(n.plan.as_ref()))
+}
+
+/// A freshly planned twin of the plan flattened in `nodes` (None when planning gives another shape).
+pub fn fresh_twin(sctx: &SessionContext, sql: &str, nodes: &[NodeRef]) -> Option<Vec<NodeRef>> {
+    let (_, p) = plan_case(sctx, sql).ok()?;
+    let f = flatten(&p);
+    if f.len() == nodes.len() && f.iter().zip(nodes).all(|(a, b)| a.path == b.path && a.name == b.name && a.plan.schema() == b.plan.schema()) { Some(f) } else { None }
 }
 
 // ---------------------------------------------------------------- execution
@@ -378,6 +436,21 @@ pub struct PlanRun {
     pub logical: LogicalPlan,
     pub physical: Arc<dyn ExecutionPlan>,
     pub nodes: Vec<NodeRun>,
+    pub sql: String,
+    /// the plan holds dynamic filters: every execution used a freshly planned twin
+    pub replanned: bool,
+}
+
+impl PlanRun {
+    /// A never-executed copy of the whole plan.
+    pub fn whole_plan_copy(&self) -> Option<Arc<dyn ExecutionPlan>> {
+        if self.replanned {
+            let flat = flatten(&self.physical);
+            fresh_twin(&self.sctx, &self.sql, &flat).map(|f| Arc::clone(&f[0].plan))
+        } else {
+            reset_plan_states(Arc::clone(&self.physical)).ok()
+        }
+    }
 }
 
 /// Plan `sql` in `sctx` (logical plan as written, physical plan as the engine would run it).
@@ -397,24 +470,35 @@ pub fn plan_case(sctx: &SessionContext, sql: &str) -> Result<(LogicalPlan, Arc<d
 pub fn walk(sctx: &SessionContext, sql: &str, only: Option<&[usize]>) -> Result<PlanRun, String> {
     let (logical, physical) = plan_case(sctx, sql)?;
     let flat = flatten(&physical);
-    let mut plans: Vec<Option<Result<Arc<dyn ExecutionPlan>, Skip>>> = vec![];
+    // Each standalone copy is built immediately before it runs: building it resets execution
+    // state that copies share with the original plan (a ScalarSubqueryExec's result slots).
+    let replanned = plan_holds_dynamic_filters(&flat);
+    let mut standalone: Vec<Option<Standalone>> = vec![];
     for i in 0..flat.len() {
         if only.map(|o| o != flat[i].path.as_slice()).unwrap_or(false) {
-            plans.push(None);
-        } else {
-            plans.push(Some(standalone_plan(&flat, i)));
+            standalone.push(None);
+            continue;
         }
+        let built = if replanned {
+            match fresh_twin(sctx, sql, &flat) {
+                Some(twin) => standalone_plan(&twin, i, true),
+                None => Err(Skip::CannotBuild("planning the statement again gave a different plan".into())),
+            }
+        } else {
+            standalone_plan(&flat, i, false)
+        };
+        standalone.push(Some(match built {
+            Err(s) => Standalone::Skipped(s),
+            Ok(p) => Standalone::Ran(execute_all(&p, sctx.task_ctx())),
+        }));
     }
     let mut nodes = vec![];
-    for (node, sp) in flat.into_iter().zip(plans) {
-        let standalone = match sp {
-            None => continue,
-            Some(Err(s)) => Standalone::Skipped(s),
-            Some(Ok(p)) => Standalone::Ran(execute_all(&p, sctx.task_ctx())),
-        };
-        nodes.push(NodeRun { node, standalone });
+    for (node, st) in flat.into_iter().zip(standalone) {
+        if let Some(standalone) = st {
+            nodes.push(NodeRun { node, standalone });
+        }
     }
-    Ok(PlanRun { sctx: sctx.clone(), logical, physical, nodes })
+    Ok(PlanRun { sctx: sctx.clone(), logical, physical, nodes, sql: sql.to_string(), replanned })
 }
 
 // ---------------------------------------------------------------- values of expressions on observed output
@@ -463,11 +547,16 @@ pub struct Outcome {
     pub nontrivial: Vec<String>,
     pub counters: BTreeMap<String, u64>,
     pub sample: Option<Json>,
+    /// free-text remarks for triage (printed under VERIF_DEBUG_FINDINGS)
+    pub notes: Vec<(String, String)>,
 }
 
 impl Outcome {
     pub fn count(&mut self, k: &str, n: u64) {
         *self.counters.entry(k.to_string()).or_insert(0) += n;
+    }
+    pub fn finding_keyed(&mut self, key: &str, node: &NodeRef, what: String) {
+        self.findings.push(Finding { key: key.to_string(), what: format!("node {:?} `{}`: {what}", node.path, one_line(node.plan.as_ref())), node_path: node.path.clone() });
     }
     pub fn finding(&mut self, node: &NodeRef, property: &str, what: String) {
         self.findings.push(Finding { key: format!("{}: {property}", node.name), what: format!("node {:?} `{}`: {what}", node.path, one_line(node.plan.as_ref())), node_path: node.path.clone() });
@@ -486,11 +575,15 @@ pub struct Checker<'a> {
 
 /// Count the walker-level facts of a run (what ran, what was skipped and why).
 fn count_walk(run: &PlanRun, out: &mut Outcome) {
+    if run.replanned {
+        out.count("plans_holding_dynamic_filters(every_execution_freshly_planned)", 1);
+    }
     for n in &run.nodes {
         match &n.standalone {
             Standalone::Ran(o) => {
                 out.count("nodes_executed_standalone", 1);
                 if let Some(e) = &o.error {
+                    out.notes.push(("standalone error".into(), format!("node {:?} {}: {}", n.node.path, n.node.name, e.lines().next().unwrap_or("").chars().take(200).collect::<String>())));
                     if e.starts_with("HARNESS-TIMEOUT") {
                         out.count("standalone_timeouts", 1);
                     } else if e.starts_with("panic:") {
@@ -521,6 +614,7 @@ pub fn run_case_in(sctx: &SessionContext, case: &Case, checker: &Checker) -> Res
     };
     count_walk(&run, &mut out);
     check(case, &run, &mut out);
+    attribute_to_lowest_node(&mut out);
     if let Some(k) = &case.expect_key {
         out.findings.retain(|f| &f.key == k);
     }
@@ -528,6 +622,23 @@ pub fn run_case_in(sctx: &SessionContext, case: &Case, checker: &Checker) -> Res
         out.findings.retain(|f| &f.node_path == p);
     }
     Ok(out)
+}
+
+/// A wrong declaration is inherited by the ancestors of the node that introduced it.  To get
+/// one report per root cause, a finding is dropped when a *descendant* node of the same plan has
+/// a finding about the same kind of declaration (the text after "<NodeType>: " in the key).
+fn attribute_to_lowest_node(out: &mut Outcome) {
+    let kind = |k: &str| k.split_once(": ").map(|x| x.1.to_string()).unwrap_or_else(|| k.to_string());
+    let all: Vec<(Vec<usize>, String)> = out.findings.iter().map(|f| (f.node_path.clone(), kind(&f.key))).collect();
+    let before = out.findings.len();
+    out.findings.retain(|f| {
+        let k = kind(&f.key);
+        !all.iter().any(|(p, k2)| *k2 == k && p.len() > f.node_path.len() && p[..f.node_path.len()] == f.node_path[..])
+    });
+    let dropped = (before - out.findings.len()) as u64;
+    if dropped > 0 {
+        out.count("findings_inherited_from_a_descendant(not_reported_separately)", dropped);
+    }
 }
 
 pub fn run_case(case: &Case, check: &Checker) -> Result<Outcome, String> {
@@ -589,6 +700,8 @@ pub fn explore(ctx: &Ctx, opts: &ExploreOpts, check: &Checker) {
     // per root-cause key: (rank, what, case, number of failing (case, node) pairs)
     type Rank = (usize, usize, usize, usize, Vec<usize>);
     let fails: Mutex<BTreeMap<String, (Rank, String, Case, u64)>> = Mutex::new(BTreeMap::new());
+    // VERIF_DEBUG_FINDINGS=1: print every finding and note (triage aid; does not change the verdict)
+    let debug = std::env::var("VERIF_DEBUG_FINDINGS").is_ok();
     work.par_iter().for_each(|(ch, di, ci)| {
         if ctx.out_of_time() {
             return;
@@ -628,7 +741,15 @@ pub fn explore(ctx: &Ctx, opts: &ExploreOpts, check: &Checker) {
                     ctx.sample(s);
                 }
             }
+            if debug {
+                for (k, v) in &out.notes {
+                    eprintln!("NOTE [{k}] {} | {} | {} | {v}", q.sql, config, label);
+                }
+            }
             for f in out.findings {
+                if debug {
+                    eprintln!("FINDING [{}] {} | {} | {} | {}", f.key, q.sql, config, label, f.what);
+                }
                 let rank: Rank = (qi, dbv.total_rows(), *ci, *di, f.node_path.clone());
                 let mut c = case.clone();
                 c.node = Some(f.node_path.clone());
